@@ -13,7 +13,7 @@ def ackFinal (suf : List (Node α)) (k : Nat) : List (Node α) :=
 /-- the pending bytes of a chain in stream order -/
 abbrev pendL (ns : List (Node α)) : List α := ns.flatMap (·.pend)
 
-theorem absL_append (a b : List (Node α)) : absL (a ++ b) = absL a ++ absL b := List.flatMap_append
+theorem absL_append_ack (a b : List (Node α)) : absL (a ++ b) = absL a ++ absL b := List.flatMap_append
 
 theorem Node.discard_abs (nd : Node α) : nd.discard.abs = [] := by
   simp [Node.discard, Node.abs, Node.readable]
@@ -196,7 +196,7 @@ theorem mallocAck_refines [DecidableEq α] {b : LB α} {q : Q α} (hR : R b q) (
   have hitems : q.items = (((b.nodes.take b.f).drop b.r).flatMap Node.readable ++ fn.readable).map (·, true) ++
       (pendL (b.nodes.drop b.f)).map (·, false) := by
     rw [← hR.abs, LB.abs_eq, hsplit]
-    rw [absL_append, absL_all_flushed _ hA, hns,
+    rw [absL_append_ack, absL_all_flushed _ hA, hns,
       absL_head_pend fn _ (fun x hx => (hwr x (hns ▸ hx)).2.1) htail]
     simp
   generalize hT : ((b.nodes.take b.f).drop b.r).flatMap Node.readable ++ fn.readable = T at hitems
@@ -251,7 +251,7 @@ theorem mallocAck_refines [DecidableEq α] {b : LB α} {q : Q α} (hR : R b q) (
   refine ⟨?_, ?_, ?_, fun _ => ?_, ?_, fun h => by rw [happ] at h; cases h⟩
   · show absL ((_ : List (Node α)).drop b.r) = q.items.take (q.len + n.toNat)
     rw [hnodes, List.drop_append_of_le_length (by simp; omega)]
-    rw [absL_append, hqlen, t3, absL_all_flushed _ hA, hFabs, ← hT]
+    rw [absL_append_ack, hqlen, t3, absL_all_flushed _ hA, hFabs, ← hT]
     simp
   · show b.length = ((q.items.take (q.len + n.toNat)).filter (·.2)).length
     rw [hqlen, t3, hR.len, hqlen]
